@@ -17,7 +17,15 @@ RULE_CORR = ("histories of 1-6 executions on one sandbox: every builtin exceptio
              "evaluate() (main file answer.py or another name; run() bare / by file name / with code and file name; "
              "call with and without arguments), 4 tracer styles, "
              "with a pre-installed trace function, optionally with a failure injected into the recording of the "
-             "exception; real = pedal.sandbox.commands on MAIN_REPORT, model = Pedal.SandboxExec.runObserved via the "
+             "exception; PLUS the size dimension (sandboxexec_sizes.py): every integer limit constant / literal of the "
+             "modules that record a failure and render its feedback is read from the tree under test, and inputs "
+             "consumed (also added up over a group of calls, also pedal's own give-up limit), traceback depth (chain "
+             "and bounded recursion), printed output, exception message / constructor arguments / class-name length, "
+             "length / number / line span of the failing source line, and length / number / faithfulness of call() "
+             "arguments are swept over the values just below, at, just above, at half and at twice each limit, plus 0 "
+             "and one LARGE value per dimension; PLUS what the rendering is handed (30 message values, 13 class names, "
+             "12 positions of a hand-made SyntaxError, 21 exceptions with constructor arguments / notes / causes / "
+             "groups); default, HTML and text formatter; inputs queued by set_input or by inputs=; real = pedal.sandbox.commands on MAIN_REPORT, model = Pedal.SandboxExec.runObserved via the "
              "driver; non-trivial = history containing a failing execution")
 
 
@@ -117,6 +125,7 @@ def make(prop, theorems, *, model_notes=None, refuted_full=None, driver_exe=None
         nt = set()
 
         sizes_seen = {}     # (signature key | None for "fine", dimension) -> set of sizes
+        per_kind = {}
 
         def consider(ops, obs):
             info["evaluations"] += 1
@@ -129,6 +138,14 @@ def make(prop, theorems, *, model_notes=None, refuted_full=None, driver_exe=None
                 if key in seen:
                     continue
                 seen.add(key)
+                # one root cause usually shows under many program shapes: report at most 6 signatures per kind of
+                # breach (each one costs a shrink and a VIOLATION line)
+                kind = str(sig.get(prop.lower()))
+                per_kind[kind] = per_kind.get(kind, 0) + 1
+                if per_kind[kind] > 6:
+                    info["signatures_not_reported_beyond_6_per_kind"] = \
+                        info.get("signatures_not_reported_beyond_6_per_kind", 0) + 1
+                    continue
                 small, small_obs = sx.shrink_history(prop, ops, idx, sig)
                 failures.append(Failure(sig, what, {"ops": small, "real": small_obs if small_obs else obs[:idx + 1]}))
             for idx, op in enumerate(ops):
